@@ -92,6 +92,11 @@ void* muggle_memory_pool_alloc(muggle_memory_pool_t* pool)
 			delta_cap = pool->max_delta_cap;
 		}
 		uint32_t new_cap = pool->capacity + delta_cap;
+		if (new_cap <= pool->capacity)
+		{
+			// uint32_t overflow, the pool can't grow any further
+			return NULL;
+		}
 
 		if (!muggle_memory_pool_ensure_space(pool, new_cap))
 		{
